@@ -56,7 +56,13 @@ def scenario(V, P, cfg):
     for j, s in enumerate(outs):
         if j in seeded:
             kind = setup.seed_kinds.get(j, "dense")
-            if kind == "preimage_T":
+            if kind == "preimage_T" and cfg.get("real_seed"):
+                # a real-typed seed on a complex output (np.ones(n), a selection vector, ...): no pre-image, the adjoint
+                # system is answered by the oracle's exact small-system fallback
+                shp = np.shape(dense_entries(s.state))
+                seed = V.reals("wr%d" % j, shp)
+                Wd = np.asarray(seed)
+            elif kind == "preimage_T":
                 seed, Wd = _preimage_seed(V, setup, s.state)
             else:
                 seed, Wd = adj.make_seed(V, j, s.state, kind, setup)
@@ -131,7 +137,10 @@ def replay(cfg, label, env, case):
         for j, sg in enumerate(m.sig_out):
             if j in seeded:
                 kind = setup.seed_kinds.get(j, "dense")
-                if kind == "preimage_T":
+                if kind == "preimage_T" and cfg.get("real_seed"):
+                    seed = V.reals("wr%d" % j, np.shape(dense_entries(sg.state)))
+                    Wd = np.asarray(seed)
+                elif kind == "preimage_T":
                     seed, Wd = _preimage_seed(V, setup, sg.state)
                 else:
                     seed, Wd = adj.make_seed(V, j, sg.state, kind, setup)
